@@ -39,7 +39,7 @@ type Point struct {
 	Allocator string `json:"allocator"` // "" | stable | moving
 	NoDebug   bool   `json:"debug_info_disabled"`
 	Custom    bool   `json:"custom_sections"`
-	Listeners bool   `json:"listeners"`
+	Listeners string `json:"listeners"` // "" | "all" | "nil" (a factory is installed but returns no listener for any function)
 	CloseCtx  bool   `json:"close_on_context_done"`
 }
 
@@ -48,7 +48,7 @@ func (p Point) differs() int {
 	if p.Cache != "none" {
 		n++
 	}
-	for _, b := range []bool{p.CapMax, p.Allocator != "", p.NoDebug, p.Custom, p.Listeners, p.CloseCtx} {
+	for _, b := range []bool{p.CapMax, p.Allocator != "", p.NoDebug, p.Custom, p.Listeners != "", p.CloseCtx} {
 		if b {
 			n++
 		}
@@ -58,6 +58,7 @@ func (p Point) differs() int {
 
 // Case is the replayable form.
 type Case struct {
+	Lib      *wasmgen.Module `json:"lib,omitempty"` // a second module whose exports Module imports (instantiated as "lib")
 	Module   *wasmgen.Module `json:"module"`
 	Script   []runner.Call   `json:"script"`
 	Fuel     int32           `json:"fuel"`
@@ -113,9 +114,15 @@ func allocator(kind string, shared bool) experimental.MemoryAllocator {
 
 // ---- listeners ----
 
-type nopListener struct{ n *int64 }
+type nopListener struct {
+	n       *int64
+	nilOnly bool
+}
 
 func (l nopListener) NewFunctionListener(api.FunctionDefinition) experimental.FunctionListener {
+	if l.nilOnly {
+		return nil
+	}
 	return l
 }
 func (l nopListener) Before(context.Context, api.Module, api.FunctionDefinition, []uint64, experimental.StackIterator) {
@@ -161,8 +168,8 @@ func ctxFor(p Point, m *wasmgen.Module, calls *int64) context.Context {
 	if p.Allocator != "" {
 		ctx = experimental.WithMemoryAllocator(ctx, allocator(p.Allocator, m.MemShared))
 	}
-	if p.Listeners {
-		ctx = experimental.WithFunctionListenerFactory(ctx, nopListener{calls})
+	if p.Listeners != "" {
+		ctx = experimental.WithFunctionListenerFactory(ctx, nopListener{n: calls, nilOnly: p.Listeners == "nil"})
 	}
 	return ctx
 }
@@ -170,13 +177,19 @@ func ctxFor(p Point, m *wasmgen.Module, calls *int64) context.Context {
 // RunCase returns a violation message or "".
 func RunCase(c *Case) (msg string, labels []string) {
 	feats := api.CoreFeatures(c.Features)
-	opt := runner.Options{FuelPerCall: c.Fuel}
+	opt := runner.Options{FuelPerCall: c.Fuel, Lib: c.Lib}
 	base := runner.Run(baseCfg(c.Engine, feats, c.Limit), c.Module, c.Script, opt)
 	if base.HasKind(wz.KInternal) {
 		return fmt.Sprintf("internal failure under the baseline configuration: %v %v", base.Inst, base.Steps), nil
 	}
 	if base.HasKind(wz.KStack) {
 		return "", []string{"discarded-stack-overflow"}
+	}
+	if base.Inst.Kind == "lib-failed" {
+		return "", []string{"discarded-lib-start-failed"}
+	}
+	if c.Lib != nil {
+		labels = append(labels, "cross-module-calls")
 	}
 	if base.Inst.Kind != wz.KOK {
 		labels = append(labels, "baseline-inst-fails")
@@ -270,7 +283,7 @@ func RunCase(c *Case) (msg string, labels []string) {
 			cache.Close(ctx)
 			labels = append(labels, "shared-cache")
 		}
-		if p.Listeners && calls > 0 {
+		if p.Listeners == "all" && calls > 0 {
 			labels = append(labels, "listener-saw-calls")
 		}
 		labels = append(labels, "cache:"+p.Cache)
@@ -293,7 +306,7 @@ func drawPoint(t *rapid.T) Point {
 		Allocator: rapid.SampledFrom([]string{"", "", "stable", "moving"}).Draw(t, "alloc"),
 		NoDebug:   rapid.Bool().Draw(t, "nodebug"),
 		Custom:    rapid.Bool().Draw(t, "custom"),
-		Listeners: rapid.Bool().Draw(t, "listeners"),
+		Listeners: rapid.SampledFrom([]string{"", "all", "nil"}).Draw(t, "listeners"),
 		CloseCtx:  rapid.Bool().Draw(t, "closectx"),
 	}
 }
@@ -306,8 +319,17 @@ func prop(t *rapid.T) {
 	cfg.MaxStmts = rapid.IntRange(2, 6).Draw(t, "maxstmts")
 	cfg.MaxDepth = rapid.IntRange(2, 5).Draw(t, "maxdepth")
 	cfg.Names, cfg.Customs = true, true
+	cfg.SegmentRich = rapid.Bool().Draw(t, "segrich")
+	var lib *wasmgen.Module
+	if rapid.IntRange(0, 2).Draw(t, "withlib") == 0 {
+		lcfg := cfg
+		lcfg.HostModule, lcfg.ModuleName, lcfg.AllowStart = "env2", "lib", false
+		lcfg.MaxFuncs = rapid.IntRange(1, 6).Draw(t, "libfuncs")
+		lib = wasmgen.Generate(t, lcfg)
+		cfg.Lib, cfg.LibName = lib, "lib"
+	}
 	m := wasmgen.Generate(t, cfg)
-	c := &Case{Module: m, Fuel: cfg.FuelInit, Engine: rapid.SampledFrom(wz.Engines).Draw(t, "engine"), Features: uint64(fc.a)}
+	c := &Case{Module: m, Lib: lib, Fuel: cfg.FuelInit, Engine: rapid.SampledFrom(wz.Engines).Draw(t, "engine"), Features: uint64(fc.a)}
 	c.Limit = rapid.SampledFrom([]uint32{0, 0, 1, 2, 3, 4, 100}).Draw(t, "limit")
 	ex := m.Exports()
 	n := rapid.IntRange(1, 6).Draw(t, "ncalls")
